@@ -24,6 +24,30 @@ pub enum Proj {
     Text(String),
     /// project directory exported with HULC's result files (the export tool's --use-extra mode)
     DirExtra(String),
+    /// shipped project file with its BUILD-PARAMETERS block left out (the building's deviation from north then
+    /// takes its default, 0)
+    FileNoBuildParams(String),
+}
+
+/// the text without the `"..." = BUILD-PARAMETERS` block (its lines up to and including the closing `..`)
+fn without_build_parameters(text: &str) -> String {
+    let mut out = String::with_capacity(text.len());
+    let mut skipping = false;
+    for l in text.split_inclusive('\n') {
+        let t = l.trim();
+        if !skipping && t.starts_with('"') && t.split_once('=').map_or(false, |(_, v)| v.trim() == "BUILD-PARAMETERS") {
+            skipping = true;
+            continue;
+        }
+        if skipping {
+            if t == ".." || t.ends_with("..") {
+                skipping = false;
+            }
+            continue;
+        }
+        out.push_str(l);
+    }
+    out
 }
 
 fn real_projects() -> Vec<String> {
@@ -34,6 +58,7 @@ fn project_text(p: &Proj) -> String {
     match p {
         Proj::File(f) => std::fs::read_to_string(f).unwrap_or_default(),
         Proj::Text(t) => t.clone(),
+        Proj::FileNoBuildParams(f) => without_build_parameters(&std::fs::read_to_string(f).unwrap_or_default()),
         Proj::DirExtra(d) => crate::util::files_with_ext(std::path::Path::new(d), &["ctehexml"]).first().and_then(|f| std::fs::read_to_string(f).ok()).unwrap_or_default(),
     }
 }
@@ -140,7 +165,23 @@ pub fn worker(sub: &str, v: Value) -> Value {
         }
         "C05.ind_seq" => {
             let ss: Vec<Spec> = serde_json::from_value(v).expect("decodes");
-            json!(ss.iter().map(|s| indicators_digest(&spec_model(s))).collect::<Vec<_>>())
+            // from the second model on, other public entry points are used first (U-values of single walls, the
+            // properties table), as an editor does while the model is being changed; the first one (and so every
+            // baseline, which is a history of one) goes straight to the indicators
+            json!(ss
+                .iter()
+                .enumerate()
+                .map(|(i, s)| {
+                    let m = spec_model(s);
+                    if i > 0 {
+                        for w in &m.walls {
+                            let _ = w.u_value(&m);
+                        }
+                        let _ = bemodel::energy::EnergyProps::from(&m);
+                    }
+                    indicators_digest(&m)
+                })
+                .collect::<Vec<_>>())
         }
         "C05.ind_threads" => {
             let ss: Vec<Spec> = serde_json::from_value(v).expect("decodes");
@@ -199,6 +240,7 @@ fn check_conv_seq(h: &CaseH, c: &ConvSeq) -> Verdict {
         Proj::File(f) => f.trim_start_matches("/repo/hulc_tests/tests/").to_string(),
         Proj::Text(t) => format!("generated project ({} bytes)", t.len()),
         Proj::DirExtra(d) => format!("{} with result files", d.trim_start_matches("/repo/hulc_tests/tests/")),
+        Proj::FileNoBuildParams(f) => format!("{} without its BUILD-PARAMETERS block", f.trim_start_matches("/repo/hulc_tests/tests/")),
     };
     for (i, p) in c.order.iter().enumerate() {
         let base = match baseline_of(p) {
@@ -522,7 +564,7 @@ fn ind_seq() -> BoxedStrategy<IndSeq> {
 
 pub fn run(args: &Args) -> ! {
     let ctx = Ctx::new("C05", "exploration", args);
-    ctx.rule("conversion: shipped .ctehexml projects (plain, and exported with their result files as --use-extra does) and generated buildings: 3 repeats in one process; histories of 2-6 conversions in ONE fresh process in a generated order and the same on simultaneous threads (barrier-released), each compared byte-wise (digest + length) with the project converted alone in a fresh process; id locality: each project with one unrelated definition added (material, layers, glass, frame, day/week schedule, shade, bridge, a further construction with its own name and absorptance over a layers definition the project already uses, or a daily schedule named like an existing weekly one): name -> id maps before are a sub-map of those after; the 6 shipped (project, reference model) pairs of the Makefile, reference normalised through the current serialiser. indicators: histories of 2-7 computations (shipped models, their variants with shades/setbacks removed or every daily schedule value halved but identical ids, generated models over all zones) sequentially in one fresh process and on simultaneous threads, each result compared with the model computed alone in a fresh process (per-orientation detail compared as a map). Non-trivial: history with >= 2 different projects / >= 2 climate zones.");
+    ctx.rule("conversion: shipped .ctehexml projects (plain, exported with their result files as --use-extra does, and with their BUILD-PARAMETERS block left out) and generated buildings: 3 repeats in one process; histories of 2-6 conversions in ONE fresh process in a generated order and the same on simultaneous threads (barrier-released), each compared byte-wise (digest + length) with the project converted alone in a fresh process; id locality: each project with one unrelated definition added (material, layers, glass, frame, day/week schedule, shade, bridge, a further construction with its own name and absorptance over a layers definition the project already uses, or a daily schedule named like an existing weekly one): name -> id maps before are a sub-map of those after; the 6 shipped (project, reference model) pairs of the Makefile, reference normalised through the current serialiser. indicators: histories of 2-7 computations (shipped models, their variants with shades/setbacks removed or every daily schedule value halved but identical ids, generated models over all zones) sequentially in one fresh process and on simultaneous threads, from the second computation on preceded by calls of the other public entry points (Wall::u_value of every wall, EnergyProps::from) on the same model; each result compared with the model computed alone in a fresh process (per-orientation detail compared as a map). Non-trivial: history with >= 2 different projects / >= 2 climate zones.");
     ctx.assume("a fresh process = a new worker process of the harness binary; thread interleavings are sampled (start order only)");
     ctx.replay_regressions(replay_one);
     let mut real: Vec<Proj> = real_projects().into_iter().map(Proj::File).collect();
@@ -534,6 +576,10 @@ pub fn run(args: &Args) -> ! {
                 real.push(Proj::DirExtra(d.to_string_lossy().to_string()));
             }
         }
+    }
+    // and without their BUILD-PARAMETERS block: what such a project converts to must not depend on the project before it
+    for f in real_projects() {
+        real.push(Proj::FileNoBuildParams(f));
     }
     ctx.run_enum("repeat_real", &real, true, check_repeat);
     ctx.run_prop("repeat_generated", ctx.tier().pick(20, 500), || gb::bld().prop_map(|b| Proj::Text(gb::print_ctehexml(&b, &[]))), check_repeat);
